@@ -38,7 +38,7 @@ def run(chk):
         mb = car0.massbins
         nb = mb.nbin
         exprs, meta = [], []
-        for _ in range(nst):
+        for ist in range(nst):
             car = copy.copy(car0)
             t = F.random_time(rng, car)
             y = F.random_state(rng, car)
@@ -46,6 +46,8 @@ def run(chk):
                 x = float(rng.choice(list(car.tms_u)))
                 t = x * (1 + 10 ** rng.uniform(-14, -6))
             car.md = rng.choice([1.2, 1.2, 0.3, 0.8, 2.5, 5.0])
+            if car.md == 5.0 and ist % 2 == 1:
+                car.md = [12.0, 40.0][(ist // 2) % 2]   # a depletion mass above the lighter BH bins: they deplete like every other class (no draw from rng)
             car._esc_norm = rng.choice(["N", "M"])
             car.tcc = rng.choice([0.0, 0.0, t * 2, t, t * 0.5, 1e9])
             rate = -10 ** rng.uniform(-2, 3) if rng.random() < 0.9 else 0.0
